@@ -21,6 +21,7 @@ const (
 var (
 	ErrUnableToIdAggregateChild = errors.New("unable to identify aggregate child")
 	ErrAggregateTargetMissing   = errors.New("aggregate must be provided with a property to aggregate")
+	ErrSimilarityTargetMissing  = errors.New("_similarity must be provided with a field to compare with")
 	ErrFailedToFindHostField    = errors.New("failed to find host field")
 	ErrInvalidFieldIndex        = errors.New("given field doesn't have any indexes")
 	ErrMissingSelect            = errors.New("missing target select field")
